@@ -231,6 +231,16 @@ pub fn eval(case: &Case) -> Verdict {
             if restricted.report.capped || unrestricted.report.capped {
                 return Verdict::skip("capped");
             }
+            {
+                // classes of recorded exploration-completeness findings (the unrestricted run is the yardstick)
+                let mut o = refsc::Opts::new();
+                o.notify_any = true;
+                o.max_states = 100_000;
+                let scr = refsc::explore(&q, o);
+                if scr.send_after_rx_drop {
+                    v.label("class:send_after_rx_drop");
+                }
+            }
             let lr: BTreeSet<Outcome> = restricted.outcomes.keys().cloned().collect();
             let lu: BTreeSet<Outcome> = unrestricted.outcomes.keys().cloned().collect();
             v.detail = serde_json::json!({"L_restricted": set_str(&lr), "L_unrestricted": set_str(&lu),
